@@ -266,15 +266,16 @@ func (fv *FuncVerifier) receiverAndArgs(fn *types.Func, call *ast.CallExpr, st *
 		addressable := true
 		unmodelled := false
 		func() {
-			defer func() {
+			defer func(nframes int) {
 				if r := recover(); r != nil {
+					fv.frames = fv.frames[:nframes] // an unsupported construct met inside nested inlined calls: drop their frames
 					if _, ok := r.(unsupported); ok {
 						unmodelled = true
 						return
 					}
 					panic(r)
 				}
-			}()
+			}(len(fv.frames))
 			cur = fv.eval(se.X, st)
 		}()
 		if unmodelled || cur.Sort == nil {
@@ -372,8 +373,9 @@ func (fv *FuncVerifier) receiverAndArgs(fn *types.Func, call *ast.CallExpr, st *
 		}
 		var v Term
 		func() {
-			defer func() {
+			defer func(nframes int) {
 				if r := recover(); r != nil {
+					fv.frames = fv.frames[:nframes] // an unsupported construct met inside nested inlined calls: drop their frames
 					if u, ok := r.(unsupported); ok && pt != nil && isInterfaceButNotError(pt) {
 						_ = u
 						v = Term{}
@@ -381,7 +383,7 @@ func (fv *FuncVerifier) receiverAndArgs(fn *types.Func, call *ast.CallExpr, st *
 					}
 					panic(r)
 				}
-			}()
+			}(len(fv.frames))
 			v = fv.evalTo(a, pt, st)
 		}()
 		args = append(args, v)
@@ -689,13 +691,14 @@ func (fv *FuncVerifier) havocAddressedLocals(call *ast.CallExpr, st *State) {
 			if t := fv.info().TypeOf(a); t != nil {
 				if _, isSlice := t.Underlying().(*types.Slice); isSlice && fv.isAssignableExpr(root) {
 					func() {
-						defer func() {
+						defer func(nframes int) {
 							if r := recover(); r != nil {
+								fv.frames = fv.frames[:nframes] // an unsupported construct met inside nested inlined calls: drop their frames
 								if _, ok := r.(unsupported); !ok {
 									panic(r)
 								}
 							}
-						}()
+						}(len(fv.frames))
 						cur := fv.eval(root, st)
 						if cur.Sort == nil {
 							return
